@@ -367,7 +367,29 @@ _ADDED6 = {
     "C19": " (SH1) see C09.",
     "C20": " (T10) every Watcher.Add/Remove with a computed argument next to the result of generateInWatchMode is guarded by a non-nil test of that result.",
 }
-for _src in (_ADDED, _ADDED3, _ADDED4, _ADDED5, _ADDED6):
+# Clauses added after the seventh round of independently seeded changes.
+_ADDED7 = {
+    "C01": " (UI2) the union index handed to WriteInteger/ReadInteger in the emitted C++ is unsigned; (PS2) Python fixed-size containers neither write nor read a length.",
+    "C02": " (PM2) the Python MapConverter chooses object vs. array-of-pairs by the key converter, in both directions; (NS1, when nlohmann/json.hpp is installed) the C++ overload "
+           "ShouldSerializeFieldValue(std::variant) answers `index() != 0` only where alternative 0 is std::monostate.",
+    "C03": " (J2) registered here too.",
+    "C04": " (A7) the schema text is produced by json.Marshal alone; (A8) no wire-relevant field is cleared before a definition is listed; (RD1) no call statement drops the result of a "
+           "module function that only computes.",
+    "C05": " (H1) registered here too.",
+    "C06": " (LP1) no range loop of pkg/dsl with a conditional body leaves on every path of its first iteration.",
+    "C09": " (RD1) see C04; (V5) one audit of round 0 — validateUnionCases not descending into the type arguments of a reference — was wrong and is removed (fix df90284).",
+    "C10": " (TA1) no unchecked single-value type assertion in the parsers; (P4n) a type switch with an aborting default over a variable last assigned from a nil-returning module function "
+           "handles nil.",
+    "C11": " (V6) registered here too.",
+    "C12": " (PC1) registered here too (ordering of diagnostics compares values, not addresses).",
+    "C13": " (Q8) UnmarshalExpression parses the four plain scalar tags alike.",
+    "C14": " (UI2, PS2) see C01.",
+    "C15": " (A7, A8) see C04.",
+    "C16": " (NR1) the `required` argument emitted for ReadProtocolValue is `!step.IsStream()` of the step being printed; (S4) no emitted Python `__exit__` returns a true value.",
+    "C17": " (CB1, PB1) registered here too; PB1 now judges an unchecked byte write over every pass of a loop, not only the first.",
+    "C20": " (W2, W3) registered here too.",
+}
+for _src in (_ADDED, _ADDED3, _ADDED4, _ADDED5, _ADDED6, _ADDED7):
     for _k, _v in _src.items():
         if _k in PROPS:
             PROPS[_k]["explanation"] += _v
